@@ -380,7 +380,9 @@ fn check_cli(content: &[u8], chunks: &[Vec<u8>], tag: u64, obs: &mut Obs) -> Ver
 pub fn follow_exec_child(case: &J) -> i32 {
     use sqlgrep::execution::execution_engine::ExecutionEngine;
     use sqlgrep::executor::{DisplayOptions, FollowFileExecutor, OutputFormat};
-    let pre = materialise_bytes(&case["pre"]);
+    let mut pre = materialise_bytes(&case["pre"]);
+    // a backlog of many complete lines (C19: the interrupt arrives while unread complete lines are pending)
+    if let Some(n) = case["backlog_lines"].as_u64() { pre = (0..n).map(|i| format!("backlog line {}\n", i)).collect::<String>().into_bytes(); }
     let chunks: Vec<Vec<u8>> = case["chunks"].as_array().map(|a| a.iter().map(materialise_bytes).collect()).unwrap_or_default();
     let head = case["head"].as_bool().unwrap_or(false);
     let path = eng::scratch_dir().join("c10-exec.log");
@@ -390,6 +392,9 @@ pub fn follow_exec_child(case: &J) -> i32 {
     let Ok(stmt) = eng::parse(&sql) else { return 2; };
     let Ok(file) = File::open(&path) else { return 2; };
     let running = Arc::new(AtomicBool::new(true));
+    // an interrupter thread: after a short delay it writes a marker line to stdout (println locks stdout, so the marker sits
+    // between two records) and clears the flag
+    let interrupter = case["interrupt_delay_us"].as_u64().map(|us| { let r = running.clone(); std::thread::spawn(move || { std::thread::sleep(std::time::Duration::from_micros(us)); println!("#interrupt"); r.store(false, Ordering::SeqCst); }) });
     let next = Rc::new(RefCell::new(0usize));
     let (n2, p2) = (next.clone(), path.clone());
     set_follow_eof(Some(Box::new(move || {
@@ -402,6 +407,7 @@ pub fn follow_exec_child(case: &J) -> i32 {
     let opts = DisplayOptions { output_format: OutputFormat::Json, single_result: false, print_result: true };
     let result = match FollowFileExecutor::new(running, file, head, opts, ExecutionEngine::new(&tables, &stmt)) { Ok(mut ex) => ex.execute().map_err(|e| e.to_string()), Err(e) => Err(e.to_string()) };
     set_follow_eof(None);
+    if let Some(t) = interrupter { let _ = t.join(); }
     let _ = std::fs::remove_file(&path);
     println!("#status {}", match result { Ok(()) => "ok".to_owned(), Err(e) => format!("error {}", e) });
     println!("#appended-chunks {}", *next.borrow());
